@@ -26,7 +26,7 @@ PAIRS = [(8, 8), (16, 8), (16, 16), (32, 8), (32, 16), (32, 32), (64, 8), (64, 1
 def configs(tier, seed):
     rng = random.Random(seed + 15)
     cfgs = []
-    sizes = [1, 2, 4, 8, 16, 64] if tier == "quick" else [1, 2, 4, 8, 16, 32, 64, 128, 256]
+    sizes = [1, 2, 4, 8, 16, 64, 512] if tier == "quick" else [1, 2, 4, 8, 16, 32, 64, 128, 256, 1024]
     for dw, g in PAIRS:
         for size in sizes:
             if size * g < dw:
